@@ -93,9 +93,10 @@ class Sav:
 class Uni:
     def __init__(self, a: Union[int, str], b: Optional[float] = None,
                  c: Union[int, bool, yatiml.bool_union_fix] = 0,
-                 d: Union[Sub, List[int], None] = None) -> None:
+                 d: Union[Sub, List[int], None] = None,
+                 e: Union[bool, 'Color', None] = None) -> None:
         T(self, locals())
-        self.a, self.b, self.c, self.d = a, b, c, d
+        self.a, self.b, self.c, self.d, self.e = a, b, c, d, e
 
 
 # ------------------------------------------------------ M4 collections
@@ -132,6 +133,9 @@ class Color(enum.Enum):
     red = 1
     green = 2
     true = 3            # a member named like a boolean
+
+
+Uni.__init__.__annotations__['e'] = Union[bool, Color, None]
 
 
 class Ident(str):
@@ -311,15 +315,18 @@ def make_uni(fix: bool):
     if fix:
         CT = Union[int, bool, yatiml.bool_union_fix]
         DT = Union[bool, Sub, List[int], None, yatiml.bool_union_fix]
+        ET = Union[bool, Color, None, yatiml.bool_union_fix]
     else:
         CT = Union[int, bool]
         DT = Union[bool, Sub, List[int], None]
+        ET = Union[bool, Color, None]
 
     class Uni:
         def __init__(self, a: Union[int, str], b: Optional[float] = None,
-                     c: CT = 0, d: DT = None) -> None:           # type: ignore
-            self.a, self.b, self.c, self.d = a, b, c, d
-    return Uni, Sub
+                     c: CT = 0, d: DT = None,                    # type: ignore
+                     e: ET = None) -> None:                      # type: ignore
+            self.a, self.b, self.c, self.d, self.e = a, b, c, d, e
+    return Uni, Sub, Color
 
 
 # ------------------------------------- C02: declarative seasoning, dashes
@@ -486,3 +493,16 @@ class Other:
     def __init__(self, center: List[float], radius: float) -> None:
         T(self, locals())
         self.center, self.radius = center, radius
+
+
+# ------------------------------------ C17: several required keys, nested
+class Req4:
+    def __init__(self, a: int, b: int, c: int, d: int, e: int = 0) -> None:
+        T(self, locals())
+        self.a, self.b, self.c, self.d, self.e = a, b, c, d, e
+
+
+class Outer4:
+    def __init__(self, first: int, r: Req4, last: int) -> None:
+        T(self, locals())
+        self.first, self.r, self.last = first, r, last
